@@ -155,6 +155,78 @@ theorem binTail_inv {fx fm : Bool} {nv nc : Nat} (pol : Policy) (inp : Bytes) (h
               · exact bsuf_inv _ _ _ hs (by omega)
               · exact rinv_done
 
+/-! ## the options block: how many integers are stored / handed to the handler -/
+
+theorem readIntLines_length {k : Nat} {inp r : Bytes} {vs : List Int} (h : readIntLines k inp = .ok (vs, r)) : vs.length = k := by
+  induction k generalizing inp vs r with
+  | zero => simp [readIntLines] at h; rw [h.1]; rfl
+  | succ k ih =>
+    unfold readIntLines at h
+    split at h
+    · simp at h
+    · split at h
+      · simp at h
+      · rename_i v r1 _ vs' r2 h2
+        simp at h
+        rw [← h.1]; simp [ih h2]
+
+theorem optHeader_bound {o0 o2 : Int} {n : Nat} {vb : Bool} (h : optHeader o0 o2 = some (n, vb)) : 1 ≤ n ∧ n ≤ 9 := by
+  unfold optHeader at h
+  split at h
+  · simp at h
+  · split at h <;> simp at h <;> omega
+
+theorem optsText_bound (inp r : Bytes) (o : Opts) (h : optsText inp = .ok (o, r)) :
+    o.opts.length = o.nOpts + 5 ∧ o.nOpts + 5 ≤ 14 ∧ 1 ≤ o.nOpts := by
+  unfold optsText at h
+  split at h
+  · simp at h
+  · rename_i o4 r1 h4
+    have l4 := readIntLines_length h4
+    split at h
+    · simp at h
+    · rename_i nOpts vb hh
+      have hb := optHeader_bound hh
+      split at h
+      · simp at h
+      · rename_i more r2 hm
+        have lm := readIntLines_length hm
+        by_cases hv : vb = true
+        · simp only [hv, if_true] at h
+          split at h
+          · simp at h
+          · split at h
+            · simp at h
+            · simp at h; obtain ⟨h1, _⟩ := h; subst h1; simp [l4, lm]; omega
+        · simp only [hv] at h
+          simp at h; obtain ⟨h1, _⟩ := h; subst h1; simp [l4, lm]; omega
+
+theorem i32s_length (k : Nat) (b : Bytes) : (i32s k b).length = k := by
+  induction k generalizing b with
+  | zero => simp [i32s]
+  | succ k ih => simp [i32s, ih]
+
+theorem optsBin_bound (L : Nat) (inp r : Bytes) (o : Opts) (h : optsBin L inp = .ok (o, r)) :
+    o.opts.length = o.nOpts + 5 ∧ o.nOpts + 5 ≤ 14 ∧ 1 ≤ o.nOpts := by
+  unfold optsBin at h
+  split at h
+  · simp at h
+  · split at h
+    · simp at h
+    · split at h
+      · simp at h
+      · split at h
+        · dsimp only at h; split at h <;> simp at h
+        · dsimp only at h
+          split at h
+          · simp at h
+          · rename_i nOpts vb hh
+            have hb := optHeader_bound hh
+            repeat' split at h
+            all_goals first
+              | (simp at h; done)
+              | (simp at h; obtain ⟨h1, _⟩ := h; subst h1; simp [i32s_length]; omega)
+
 theorem afterPrimalBin_inv {fx fm : Bool} {nv nc : Nat} (pol : Policy) (i : Nat) (inp : Bytes) (hs : SanePol pol) :
     RInv fx fm (EvOK nv nc) (afterPrimalBin fx pol i inp) := by
   unfold afterPrimalBin
@@ -242,7 +314,8 @@ theorem preCheck_facts {fx fm : Bool} {P : Event → Prop} (nv nc : Nat) (pol : 
             simp at h; obtain ⟨rfl, rfl, _⟩ := h; omega
 
 theorem body_inv {fx fm : Bool} {nv nc : Nat} (pol : Policy) (binary : Bool) (o : Option Opts) (inp : Bytes)
-    (hs : SanePol pol) : RInv fx fm (EvOK nv nc) (body fx fm nv nc pol binary o inp) := by
+    (hs : SanePol pol) (ho : ∀ o', o = some o' → 6 ≤ o'.opts.length ∧ o'.opts.length ≤ 14) :
+    RInv fx fm (EvOK nv nc) (body fx fm nv nc pol binary o inp) := by
   unfold body
   have hp := preCheck_facts (fx := fx) (fm := fm) (P := EvOK nv nc) nv nc pol binary o inp
   have inner : RInv fx fm (EvOK nv nc) (match preCheck fm nv nc pol binary o inp with
@@ -256,7 +329,7 @@ theorem body_inv {fx fm : Bool} {nv nc : Nat} (pol : Policy) (binary : Bool) (o 
   unfold optEvent
   cases o with
   | none => exact inner
-  | some o => exact rinv_cons trivial rfl inner
+  | some o => exact rinv_cons (ho o rfl) rfl inner
 
 theorem msgEvent_inv {fx fm : Bool} {nv nc : Nat} (binary : Bool) (st : MsgState) (r : Result)
     (h : RInv fx fm (EvOK nv nc) r) : RInv fx fm (EvOK nv nc) (msgEvent binary st r) := by
@@ -285,7 +358,25 @@ theorem readText_inv {fx fm : Bool} {nv nc : Nat} (pol : Policy) (inp : Bytes) (
             · simp at hc
           · simp at hc
       · simp at hc
-    · exact msgEvent_inv _ _ _ (body_inv _ _ _ _ hs)
+    · rename_i o inp' hc
+      refine msgEvent_inv _ _ _ (body_inv _ _ _ _ hs ?_)
+      intro o' ho'
+      subst ho'
+      -- the options come from an accepted `optsText`
+      split at hc
+      · split at hc
+        · simp at hc
+        · split at hc
+          · split at hc
+            · simp at hc
+            · rename_i o2 r3 hopt
+              simp at hc
+              obtain ⟨h1, _⟩ := hc
+              subst h1
+              have := optsText_bound _ _ _ hopt
+              omega
+          · simp at hc
+      · simp at hc
 
 theorem readBin_inv {fx fm : Bool} {nv nc : Nat} (pol : Policy) (inp : Bytes) (hs : SanePol pol) :
     RInv fx fm (EvOK nv nc) (readBin fx fm nv nc pol inp) := by
@@ -297,10 +388,16 @@ theorem readBin_inv {fx fm : Bool} {nv nc : Nat} (pol : Policy) (inp : Bytes) (h
     · split
       · split
         · rename_i c hc; exact rinv_err (optsBin_err _ _ _ hc)
-        · exact msgEvent_inv _ _ _ (body_inv _ _ _ _ hs)
+        · rename_i o r3 hopt
+          refine msgEvent_inv _ _ _ (body_inv _ _ _ _ hs ?_)
+          intro o' ho'
+          have : o' = o := by simpa using ho'.symm
+          subst this
+          have := optsBin_bound _ _ _ _ hopt
+          omega
       · split
         · exact rinv_err (codeOK_plain (.inr (.inr (.inl rfl))))
-        · exact msgEvent_inv _ _ _ (body_inv _ _ _ _ hs)
+        · exact msgEvent_inv _ _ _ (body_inv _ _ _ _ hs (by intro o' ho'; simp at ho'))
 
 theorem readSol_inv {fx fm : Bool} {nv nc : Nat} (pol : Policy) (bytes : Bytes) (hs : SanePol pol) :
     RInv fx fm (EvOK nv nc) (readSol fx fm nv nc pol bytes) := by
